@@ -53,6 +53,10 @@ const (
 	tParked
 	tRunning
 	tDone
+	// tExternal: the task blocked durably on something the kernel does not know (a channel of
+	// net/textproto's pipeline, a WaitGroup, ...). It is neither parked nor running; the kernel
+	// goes on with the other tasks and picks it up again when it next parks or finishes.
+	tExternal
 )
 
 // Task is one simulated thread of control.
@@ -87,7 +91,7 @@ func (v Verdict) String() string {
 }
 
 const maxTasks = 160
-const maxLocks = 64
+const maxLocks = 1024
 
 type lockEnt struct {
 	addr    uintptr
@@ -116,6 +120,11 @@ type Kernel struct {
 	Steps    int
 	MaxSteps int
 	HorizonN int64 // virtual ns after which the run is cut (0 = none)
+	// MaxIdleJump: if nothing is enabled and the next timed event is further away than this,
+	// the run is declared quiescent (0 = jump any distance). Used by the -race build, where
+	// tasks park by polling and only timeouts far in the future can be left when the tasks
+	// have dead-locked each other.
+	MaxIdleJump int64
 	aborting bool
 	locks    [maxLocks]lockEnt
 	nlocks   int
@@ -129,6 +138,7 @@ type Kernel struct {
 	change   [8]int
 	nchange  int
 	// stats
+	Externals int // times a task blocked outside the kernel's knowledge
 	Contended int // times a task was found parked on a held lock
 	MaxEnabled int
 	// OnStep, if set, is called by the kernel before every choice (invariants).
@@ -291,7 +301,7 @@ func (k *Kernel) prepPark(tp **Task, c Cond, point int) bool {
 	}
 	t.cond = c
 	t.point = point
-	t.state = tParked
+	t.state = tParked // also the way back from tExternal
 	t.prepare()
 	if k.running == t {
 		k.running = nil
@@ -440,6 +450,9 @@ func (k *Kernel) Run() Verdict {
 			if d < 1 {
 				d = 1
 			}
+			if k.MaxIdleJump > 0 && d > k.MaxIdleJump {
+				return Quiescent
+			}
 			time.Sleep(time.Duration(d))
 			continue
 		}
@@ -464,13 +477,41 @@ func (k *Kernel) step(t *Task) {
 // settle waits until the released task (if any) has parked again or finished and every other
 // goroutine of the bubble is durably blocked.
 func (k *Kernel) settle() {
-	for {
+	// In the -race build a released task needs up to one poll tick to notice its release, so
+	// "everything is durably blocked but a task counts as running" is only conclusive after a
+	// few ticks; with channel parking it is conclusive at once.
+	patience := 0
+	if RaceEnabled {
+		patience = 20
+	}
+	for i := 0; ; i++ {
 		synctest.Wait()
 		if !k.busy() {
 			return
 		}
+		if i >= patience && k.markExternal() {
+			return
+		}
 		time.Sleep(1)
 	}
+}
+
+// markExternal: the running task is durably blocked outside the kernel's knowledge.
+//
+//go:norace
+func (k *Kernel) markExternal() bool {
+	for i := 0; i < k.ntasks; i++ {
+		if k.tasks[i].state == tNew {
+			return false
+		}
+	}
+	if k.running == nil {
+		return false
+	}
+	k.running.state = tExternal
+	k.running = nil
+	k.Externals++
+	return true
 }
 
 //go:norace
@@ -620,3 +661,21 @@ func (k *Kernel) ReleaseLock(addr uintptr, write bool) {
 		e.readers--
 	}
 }
+
+type joinCond struct{ ts []*Task }
+
+//go:norace
+func (j *joinCond) Enabled(int64) bool {
+	for _, t := range j.ts {
+		if t.state != tDone {
+			return false
+		}
+	}
+	return true
+}
+
+//go:norace
+func (j *joinCond) NextTime(int64) int64 { return Never }
+
+// Join parks the current task until all given tasks are done.
+func (k *Kernel) Join(ts ...*Task) { k.Park(nil, &joinCond{ts: ts}, PtOther) }
